@@ -56,14 +56,37 @@ class Token:
     type: str = field(repr=False, compare=False, default="")
 
 
+# two adjacent characters that lex as one token (or start a comment)
+_fuse_pairs = {"&&", "||", "::", "->", "<<", "[[", "]]", "//", "/*", ".."}
+
+
+def _fuses(prev: str, value: str) -> bool:
+    """
+    True if writing ``value`` directly after ``prev`` would not lex back to
+    the same two tokens
+    """
+    a, b = prev[-1:], value[:1]
+    if a + b in _fuse_pairs:
+        return True
+    if (a.isalnum() or a == "_") and (b.isalnum() or b == "_"):
+        return True
+    # a '.' next to a number becomes part of the number
+    if b == "." and (prev[:1].isdigit() or (prev[:1] == "." and prev[1:2].isdigit())):
+        return True
+    if prev == "." and b.isdigit():
+        return True
+    return False
+
+
 def tokfmt(toks: typing.List[Token]) -> str:
     """
     Helper function that takes a list of tokens and converts them to a string
     """
     last = 0
-    vals = []
+    vals: typing.List[str] = []
     default = (0, 0)
     ws = _want_spacing
+    prev = ""
 
     for tok in toks:
         value = tok.value
@@ -72,10 +95,11 @@ def tokfmt(toks: typing.List[Token]) -> str:
             l, r = 2, 0
         else:
             l, r = ws.get(tok.type, default)
-        if l + last >= 3:
+        if l + last >= 3 or (prev and _fuses(prev, value)):
             vals.append(" ")
 
         last = r
+        prev = value
         vals.append(value)
 
     return "".join(vals)
